@@ -1293,6 +1293,120 @@ Qed.
 Theorem current_constants_ok : params_ok P_INITIAL P_GROWTH P_THRESHOLD.
 Proof. apply params_okb_ok. vm_compute. reflexivity. Qed.
 
-Check step_sim.
-Check R.
-Check table_refines_map_lemma.
+Lemma bytes_eqb_spec a b : bytes_eqb a b = true <-> a = b.
+Proof.
+  revert b; induction a as [|x a IH]; destruct b as [|y b]; simpl.
+  - split; auto.
+  - split; discriminate.
+  - split; discriminate.
+  - rewrite andb_true_iff, N.eqb_eq, IH. split.
+    + intros (-> & ->); auto.
+    + intros E; inversion E; auto.
+Qed.
+
+Lemma Neqb_spec (a b : N) : N.eqb a b = true <-> a = b.
+Proof. apply N.eqb_eq. Qed.
+
+(* Map<T> with string keys *)
+Theorem smap_refines_map_lemma (ops : list smap_op) :
+  Forall (no_resize _ _) ops ->
+  Forall2 (obs_equiv _ _) (fst (smap_run ops)) (run_spec (list N) N bytes_eqb ops).
+Proof.
+  exact (table_refines_map_lemma _ _ bytes_eqb bytes_eqb_spec hash_str _ _ _ current_constants_ok ops).
+Qed.
+
+(* Set<uint64_t> *)
+Theorem uset_refines_set_lemma (ops : list uset_op) :
+  Forall (no_resize _ _) ops ->
+  Forall2 (obs_equiv _ _) (fst (uset_run ops)) (run_spec N unit N.eqb ops).
+Proof.
+  exact (table_refines_map_lemma _ _ N.eqb Neqb_spec hash_u64 _ _ _ current_constants_ok ops).
+Qed.
+
+(* StyleMap *)
+Theorem stylemap_refines_map_lemma (ops : list stylemap_op) :
+  Forall (no_resize _ _) ops ->
+  Forall2 (obs_equiv _ _) (fst (stylemap_run ops)) (run_spec N (list N) N.eqb ops).
+Proof.
+  exact (table_refines_map_lemma _ _ N.eqb Neqb_spec hash_u64 _ _ _ current_constants_ok ops).
+Qed.
+
+(* TagMap: set(k, k) deletes, get defaults to the key *)
+Definition RT := R N N hash_u64 P_INITIAL P_THRESHOLD.
+
+Lemma obs_equiv_not_items (a b : obs N N) :
+  (forall l, b <> ObsItems l) -> obs_equiv N N a b -> a = b.
+Proof.
+  intros Hb H. destruct a, b; simpl in H; auto. exfalso. eapply Hb; eauto.
+Qed.
+
+Lemma tm_step_sim (t : tagmap) (m : amap N N) (o : tagmap_op) :
+  RT t m -> no_resize _ _ o ->
+  exists r t', tagmap_step t o = Ok (r, t') /\ obs_equiv _ _ r (fst (tm_spec_step m o)) /\
+               RT t' (snd (tm_spec_step m o)).
+Proof.
+  intros HR Hnr.
+  pose proof (fun o => step_sim N N N.eqb Neqb_spec hash_u64 P_INITIAL P_GROWTH P_THRESHOLD t m o
+                          current_constants_ok HR) as Hsim.
+  destruct o as [k v|k|k|k| | | |c]; try (exact (Hsim _ Hnr)).
+  - (* set *)
+    unfold tagmap_step, tm_set, tm_spec_step. destruct (N.eqb_spec k v) as [->|Hne].
+    + destruct (Hsim (OpDel v) I) as (r & t' & Hstep & _ & HR').
+      unfold step in Hstep. destruct (tdel N N N.eqb hash_u64 t v) as [[b t'']| | | | |]; try discriminate.
+      cbn [obind fst snd] in *. inversion Hstep; subst.
+      exists ObsUnit, t'. split; auto. split; [reflexivity|exact HR'].
+    + exact (Hsim (OpSet k v) I).
+  - (* get *)
+    destruct (Hsim (OpGet k) I) as (r & t' & Hstep & Heq & HR').
+    unfold step in Hstep. unfold tagmap_step, tm_get.
+    destruct (tget N N N.eqb hash_u64 t k) as [o| | | | |]; try discriminate.
+    cbn [obind] in *. inversion Hstep; subst.
+    apply obs_equiv_not_items in Heq; [|simpl; intros; discriminate].
+    simpl in Heq. inversion Heq; subst.
+    exists (ObsVal (Some (match alookup N N N.eqb m k with Some v => v | None => k end))), t'.
+    split; auto. split; [reflexivity|exact HR'].
+Qed.
+
+Theorem tagmap_refines_lemma (ops : list tagmap_op) :
+  Forall (no_resize _ _) ops ->
+  Forall2 (obs_equiv _ _) (fst (tagmap_run ops)) (tagmap_run_spec ops).
+Proof.
+  unfold tagmap_run, tagmap_run_spec.
+  assert (H0 : RT (table0 N N) []) by (apply R_table0).
+  revert H0. generalize (table0 N N). generalize (@nil (N * N)).
+  induction ops as [|o ops IH]; intros m t HR Hnr.
+  - simpl. constructor.
+  - inversion Hnr as [|? ? Ho Hrest]; subst.
+    destruct (tm_step_sim t m o HR Ho) as (r & t' & Hstep & Heq & HR').
+    cbn [tagmap_run_from tm_spec_from]. rewrite Hstep.
+    specialize (IH _ _ HR' Hrest).
+    destruct (tagmap_run_from t' ops) as [rs tf]. simpl in *. constructor; auto.
+Qed.
+
+(* the side condition is not vacuous, and not superfluous: with a threshold of 9 tenths the table
+   fills completely and the next failed look-up never ends *)
+Example invariant_satisfiable : R N N hash_u64 P_INITIAL P_THRESHOLD (table0 N N) [].
+Proof. apply R_table0. Qed.
+
+Example threshold_9_hangs :
+  exists ops, In ObsHang (run_table N N N.eqb (fun k => k) 8 2 9 ops).
+Proof.
+  exists [OpSet 0 0; OpSet 1 0; OpSet 2 0; OpSet 3 0; OpSet 4 0; OpSet 5 0; OpSet 6 0; OpSet 7 0;
+          OpGet 100]%N.
+  vm_compute. tauto.
+Qed.
+
+Example smap_example :
+  fst (smap_run [OpSet [97] 1; OpSet [98] 2; OpSet [97] 3; OpGet [97]; OpDel [98]; OpHas [98]; OpGet [99]]%N)
+  = [ObsUnit; ObsUnit; ObsUnit; ObsVal (Some 3); ObsBool true; ObsBool false; ObsVal None]%N.
+Proof. vm_compute. reflexivity. Qed.
+
+Print Assumptions table_refines_map_lemma.
+Print Assumptions table_no_failure_lemma.
+Print Assumptions table_refines_map_eq_lemma.
+Print Assumptions tresize_grow_lemma.
+Print Assumptions smap_refines_map_lemma.
+Print Assumptions uset_refines_set_lemma.
+Print Assumptions stylemap_refines_map_lemma.
+Print Assumptions tagmap_refines_lemma.
+Print Assumptions current_constants_ok.
